@@ -1171,6 +1171,7 @@ def dimension_cases(c, S, info, R, rb):
                            ("sa[1030]", lambda: sa[1030], 1030), ("Simulation(fn,1050)", lambda: rb.Simulation(fn, snapshot=1050), 1050),
                            ("sa[1023]", lambda: sa[1023], 1023), ("sa[1024]", lambda: sa[1024], 1024), ("sa[517]", lambda: sa[517], 517),
                            ("getSimulation(t1040)", lambda: sa.getSimulation(a.dt * 1040.3, mode="snapshot", keep_unsynchronized=1), 1040)]
+                latest = []
                 for name, rd, idx in readers:
                     n += 1
                     try:
@@ -1184,13 +1185,25 @@ def dimension_cases(c, S, info, R, rb):
                         viol.append(("archive-big-wrong-snapshot:" + name.split("(")[0], "%s of an archive with %d snapshots (%s) returns the state after %d steps, expected %s" % (
                             name, NS + 1, mode, steps, idx if idx is not None else ">= %d (the latest)" % NS), {"cfg": cfg, "mode": mode, "reader": name}))
                         continue
-                    u = build_sim(rb, cfg); u.steps(steps)
-                    u.steps(4); r.steps(4); u.synchronize(); r.synchronize()
-                    pu = [(t, p) for t, p in R.persisted_view(u) if R.names.get(t) in PHYS]
+                    r.steps(4); r.synchronize()
                     pr = [(t, p) for t, p in R.persisted_view(r) if R.names.get(t) in PHYS]
+                    if idx is None:
+                        latest.append((name, pr))     # the latest snapshot is the state of the original itself (integrate() has synchronised it)
+                        continue
+                    u = build_sim(rb, cfg); u.steps(steps)
+                    u.steps(4); u.synchronize()
+                    pu = [(t, p) for t, p in R.persisted_view(u) if R.names.get(t) in PHYS]
                     d_ = R.first_difference(pu, pr)
                     if d_:
                         viol.append(("archive-big-continue:" + name.split("(")[0], "%s of a %d-snapshot archive, continued, differs from the uninterrupted run: %s" % (name, NS + 1, d_), {"cfg": cfg, "mode": mode, "reader": name}))
+                if latest and int(a.steps_done) != want_last and mode == "manual":
+                    viol.append(("archive-big-wrong-snapshot:latest", "bookkeeping", {}))
+                a.steps(4); a.synchronize()
+                pa = [(t, p) for t, p in R.persisted_view(a) if R.names.get(t) in PHYS]
+                for name, pr in latest:
+                    d_ = R.first_difference(pa, pr)
+                    if d_:
+                        viol.append(("archive-big-continue:" + name.split("(")[0], "the latest snapshot (%s) of a %d-snapshot archive, continued, differs from the original that wrote it: %s" % (name, NS + 1, d_), {"cfg": cfg, "mode": mode, "reader": name}))
             os.remove(fn)
         return {"n": n, "viol": viol}
 
